@@ -658,7 +658,10 @@ impl WalkBuilder {
     /// example, if an ignore file contains an invalid glob, all other globs
     /// are still applied.
     pub fn add_ignore<P: AsRef<Path>>(&mut self, path: P) -> Option<Error> {
-        let mut builder = GitignoreBuilder::new("");
+        // The rules apply relative to the current working directory, which
+        // is what lets them match when the paths being searched are absolute.
+        let cwd = std::env::current_dir().unwrap_or_default();
+        let mut builder = GitignoreBuilder::new(cwd);
         let mut errs = PartialErrorBuilder::default();
         errs.maybe_push(builder.add(path));
         match builder.build() {
